@@ -5,6 +5,7 @@ open Sx.Model DM
 /-- what does not change during a reception -/
 structure RxCfg (hdr P : List UInt8) (h : Handle) (g : RxG) : Prop where
   mode : h.opmod = Gen.SX127x_MODE_RX_CONT ∨ h.opmod = Gen.SX127x_MODE_RX_SINGLE
+  modem : h.activeModem = Gen.SX127x_MODULATION_FSK ∨ h.activeModem = Gen.SX127x_MODULATION_OOK
   cb : h.rxCb = true
   fits : P.length ≤ h.packet.length
   p16 : P.length < 65536
@@ -23,9 +24,9 @@ def RxPhase (hdr P : List UInt8) (h : Handle) (g : RxG) : Prop :=
   (h.expected = 0 ∧ h.received = 0 ∧ g.taken = []) ∨ (PhaseB hdr P h g ∧ h.expected ≠ 0)
 
 theorem RxCfg.of_same {hdr P h h' g g'} (hc : RxCfg hdr P h g) (hs : g.Same g')
-    (hm : h'.opmod = h.opmod) (hcb : h'.rxCb = h.rxCb) (hp : h'.packet.length = h.packet.length) (hf : h'.format = h.format)
+    (hm : h'.opmod = h.opmod) (hmo : h'.activeModem = h.activeModem) (hcb : h'.rxCb = h.rxCb) (hp : h'.packet.length = h.packet.length) (hf : h'.format = h.format)
     (hcr : h'.crcType = h.crcType) : RxCfg hdr P h' g' := by
-  refine ⟨by rw [hm]; exact hc.mode, by rw [hcb]; exact hc.cb, by rw [hp]; exact hc.fits, hc.p16, ?_, ?_⟩
+  refine ⟨by rw [hm]; exact hc.mode, by rw [hmo]; exact hc.modem, by rw [hcb]; exact hc.cb, by rw [hp]; exact hc.fits, hc.p16, ?_, ?_⟩
   · have := hc.hdrOk; unfold HdrOk at *; rw [hf, hs.cfg1, hs.cfg2, hs.plen]; exact this
   · rw [hcr]; unfold RxG.crcOn; rw [hs.cfg1]; exact hc.crc
 
@@ -93,7 +94,7 @@ structure RxInv (hdr P : List UInt8) (h : Handle) (g : RxG) : Prop where
 
 /-- arrivals (and failed transfers) keep everything -/
 theorem RxInv.fwd {hdr P h g g'} (hv : RxInv hdr P h g) (hf : Fwd hdr P g g') : RxInv hdr P h g' := by
-  refine ⟨hv.cfg.of_same hf.same rfl rfl rfl rfl rfl, hf.gi, ?_, hf.kept hv.kept⟩
+  refine ⟨hv.cfg.of_same hf.same rfl rfl rfl rfl rfl rfl, hf.gi, ?_, hf.kept hv.kept⟩
   rcases hv.phase with ⟨a, b, c⟩ | ⟨⟨a, b, c, d⟩, e⟩
   · exact Or.inl ⟨a, b, hf.taken.trans c⟩
   · exact Or.inr ⟨⟨a, b, c, hf.taken.trans d⟩, e⟩
@@ -110,17 +111,17 @@ theorem RxPhase.of_eq {hdr P h h' g g'} (hp : RxPhase hdr P h g) (he : h'.expect
 theorem RxInv.adv {hdr P h g g1} (hv : RxInv hdr P h g) (ha : g.Adv g1) :
     RxInv hdr P h g1 ∧ g.Same g1 ∧ g.fifo.length ≤ g1.fifo.length ∧ (g.over = true → g1.over = true) := by
   obtain ⟨hi1, hs, hl, hk, htk, hov⟩ := hv.gi.adv ha
-  exact ⟨⟨hv.cfg.of_same hs rfl rfl rfl rfl rfl, hi1, hv.phase.of_eq rfl rfl rfl htk, hk hv.kept⟩, hs, hl, hov⟩
+  exact ⟨⟨hv.cfg.of_same hs rfl rfl rfl rfl rfl rfl, hi1, hv.phase.of_eq rfl rfl rfl htk, hk hv.kept⟩, hs, hl, hov⟩
 
 theorem RxInv.advF {hdr P h g g1} (hv : RxInv hdr P h g) (ha : g.AdvF g1) :
     RxInv hdr P h g1 ∧ g.Same g1 ∧ g1.faulted = true := by
   obtain ⟨hf, hfl⟩ := (Fwd.refl hv.gi).stepF ha
   exact ⟨hv.fwd hf, hf.same, hfl⟩
 
-theorem RxInv.handle {hdr P h h' g} (hv : RxInv hdr P h g) (hm : h'.opmod = h.opmod) (hcb : h'.rxCb = h.rxCb)
+theorem RxInv.handle {hdr P h h' g} (hv : RxInv hdr P h g) (hm : h'.opmod = h.opmod) (hmo : h'.activeModem = h.activeModem) (hcb : h'.rxCb = h.rxCb)
     (hpk : h'.packet = h.packet) (hf : h'.format = h.format) (hcr : h'.crcType = h.crcType)
     (he : h'.expected = h.expected) (hr : h'.received = h.received) : RxInv hdr P h' g :=
-  ⟨hv.cfg.of_same (RxG.Same.refl g) hm hcb (by rw [hpk]) hf hcr, hv.gi, hv.phase.of_eq he hr hpk rfl, hv.kept⟩
+  ⟨hv.cfg.of_same (RxG.Same.refl g) hm hmo hcb (by rw [hpk]) hf hcr, hv.gi, hv.phase.of_eq he hr hpk rfl, hv.kept⟩
 
 
 theorem take_chunk {P : List UInt8} {f p : List UInt8} {r n : Nat} (hst : f ++ p = P.drop r) (hn : n ≤ f.length) :
@@ -157,7 +158,7 @@ theorem batch_level (fuel : Nat) (hdr P : List UInt8) (h : Handle) (g : RxG) (hv
     intro he; have := congrArg UInt16.toNat he; rw [hB.exp] at this; omega
   rw [if_neg hne, if_neg (by rw [hB.exp]; have := hc.fits; subst hh1; exact Nat.not_lt.mpr this)]
   simp only [if_true]
-  have hcfg1 : RxCfg hdr P h1 g1 := by subst hh1; exact hc.of_same hs1 rfl rfl rfl rfl rfl
+  have hcfg1 : RxCfg hdr P h1 g1 := by subst hh1; exact hc.of_same hs1 rfl rfl rfl rfl rfl rfl
   by_cases hb : h1.received.toNat + (Gen.HALF_MAX_FIFO_THRESHOLD - 1) < h1.expected.toNat
   · rw [if_pos hb]
     have hb' : h1.received.toNat + 30 < P.length := by rw [hB.exp] at hb; exact hb
@@ -196,7 +197,7 @@ theorem batch_level (fuel : Nat) (hdr P : List UInt8) (h : Handle) (g : RxG) (hv
       rw [this]; have := hc.p16; omega
     have hsame02 : g.Same (g1'.take (Gen.HALF_MAX_FIFO_THRESHOLD - 1)) := (hs1.trans hs1').trans hs2
     refine ⟨⟨?_, ⟨hw2, hsame02.live hi.live, ?_⟩, Or.inr ⟨⟨?_, ?_, ?_, ?_⟩, ?_⟩, ?_⟩, hsame02.cbs, by subst hh1; rfl, hsame02⟩
-    · subst hh1; exact hc.of_same hsame02 rfl rfl (by simp) rfl rfl
+    · subst hh1; exact hc.of_same hsame02 rfl rfl rfl (by simp) rfl rfl
     · -- stream
       show (g1'.take 30).taken ++ (g1'.take 30).fifo ++ (g1'.take 30).pending = hdr ++ P
       rw [htk2, hfifo2, hpend2, List.append_assoc, List.append_assoc, ← List.append_assoc (List.take 30 g1'.fifo),
